@@ -330,43 +330,3 @@ def c11_fitter_partial_node(f, replay):
         frag, b, a = node.content, b - 1, a - 1
     return False
 
-
-def c11_close_fragment_end_fill(f, replay):
-    """C11 open finding: `replace_range` (and `replace_range_with` through it) can return a schema-invalid document.  When it
-    picks a target depth shallower than the slice's open start it closes the start side with `close_fragment`, which at every
-    closed level d also appends the filler the level needs *at its end* (`fill_before(Fragment.empty, True)`) — although the
-    slice stays open at the end deeper than d.  The appended filler becomes the last child, the end spine now runs through
-    it, and the node that was open at the end is left closed as it was cut: without the content its type requires
-    (schema c0 "block{2,}" defining: slice <c0(c0)>(1,2) gives c0(c0(), tb0) with an empty inner c0).  Same in upstream
-    closeFragment.  Class: a replace_range / replace_range_with result that is not schema-valid, and the slice is open at the
-    start to depth a >= 1 and at the end deeper than some closed level d <= a whose single-child chain carries both spines and
-    whose node needs content after its children to reach a valid end."""
-    if replay.get("op") not in ("replace_range", "replace_range_with"):
-        return False
-    if "not schema-valid" not in str(replay.get("what", "")):
-        return False
-    from prosemirror.model import Slice
-    schema = _schema_of(replay)
-    sls = [a for a in (replay.get("args") or []) if isinstance(a, dict) and ("openStart" in a or "openEnd" in a)]
-    if not sls:
-        return False
-    sl = Slice.from_json(schema, sls[0])
-    from prosemirror.model import Fragment
-    frag, d = sl.content, 0
-    # level d+1 (the content of the start-spine node at depth d) can be closed by close_fragment while the slice stays open at
-    # the end below it; the end spine runs through that content when every level above has a single child
-    while d < sl.open_start and d + 1 < sl.open_end and frag.child_count == 1 and not frag.first_child.is_leaf:
-        node = frag.first_child
-        m0 = node.type.content_match
-        try:
-            front = m0.fill_before(node.content)
-            if front is not None:
-                start = front.append(node.content)
-                m = m0.match_fragment(start)
-                tail = m.fill_before(Fragment.empty, True) if m is not None else None
-                if tail is not None and tail.child_count > 0:
-                    return True       # a filler is appended after the child the end spine runs through
-        except Exception:  # noqa: BLE001
-            return False
-        frag, d = node.content, d + 1
-    return False
